@@ -34,9 +34,16 @@ class GenSource(object):
         opts = [(6, 'uniform'), (1, 0), (1, 1), (1, 1 << (nbits - 1)), (1, top)]
         if allow_missing:
             opts.append((2, 'missing'))
+        if nbits > 2:
+            # the all-ones pattern of a narrower width: under 201YYY / 207YYY this is the missing pattern of the
+            # element's Table B width, an ordinary value of the widened field
+            opts.append((1, 'ones_below'))
         k = ch.weighted(opts)
         if k == 'uniform':
             return ch.int(0, top)
+        if k == 'ones_below':
+            ds = [d for d in (1, 2, 4, 6, 7, 8, 10) if nbits - d >= 1]
+            return all_ones(nbits - ch.choice(ds))
         if k == 'missing':
             return all_ones(nbits)
         return min(k, top)
@@ -135,6 +142,10 @@ class GenSource(object):
         span = ch.weighted([(2, (1 << k) - 2), (2, (1 << k) - 1), (1, 1 << k), (1, 1)])
         span = max(0, min(span, top))
         base = ch.int(0, top - span)
+        if f.nbits > 2 and ch.bool(1, 4):
+            # a column that straddles the all-ones pattern of a narrower width (see uint_raw)
+            d = ch.choice([d for d in (1, 2, 4, 6, 7, 8, 10) if f.nbits - d >= 1])
+            base = max(0, min(all_ones(f.nbits - d) - ch.int(0, span), top - span))
         out = []
         for i in range(n):
             if can_miss and ch.bool(1, 6):
